@@ -74,6 +74,8 @@ def corpus():
             if e.get('only'):
                 continue
             _corpus.append((e['id'], mibspec.render(e['mods']), mibspec.file_tree(e['mods']), e['v1']))
+        m = repeated_imports()
+        _corpus.append(('imports-repeated-0', mibspec.render([m]), mibspec.file_tree([m]), False))
         for b in breakages():
             _corpus.append(('breakage-%s-%d' % (b['opt'], b['n']), b['text'], None, False))
     return _corpus
@@ -83,6 +85,11 @@ def corpus():
 
 def _find(tokens, tok, start=0):
     return [i for i in range(start, len(tokens)) if tokens[i] == tok]
+
+
+def repeated_imports():
+    v = {'k': 'value', 'name': 'a', 'oid': ['x', 1]}
+    return catalogue.mod([v], imports=[('A-MIB', ['a1', 'a2', 'a1']), ('B-MIB', ['b1', 'b1']), ('C-MIB', ['c1', 'C2', 'C2', 'c1'])])
 
 
 def breakages():
@@ -97,6 +104,11 @@ def breakages():
     v = {'k': 'value', 'name': 'a', 'oid': ['x', 1]}
     # comma at the end of each import group
     m = M([v], imports=[('A-MIB', ['a1', 'a2']), ('B-MIB', ['b1']), ('C-MIB', ['c1', 'C2', 'c3'])])
+    toks = mibspec.module_tokens(m)
+    for i in _find(toks, 'FROM'):
+        add('commaAtTheEndOfImport', toks[:i] + [','] + toks[i:], mibspec.file_tree([m]))
+    # ... of groups that list a symbol twice (unusual, legal)
+    m = repeated_imports()
     toks = mibspec.module_tokens(m)
     for i in _find(toks, 'FROM'):
         add('commaAtTheEndOfImport', toks[:i] + [','] + toks[i:], mibspec.file_tree([m]))
@@ -378,7 +390,7 @@ class SharedCacheDirectory(object):
                 try:
                     p = parserFactory(**dict((o, True) for o in self.DIALECTS[i]))(tempdir=d)
                 except Exception as exc:
-                    vs.append(('C17|shared-cache|parser-%d-cannot-be-built|%s' % (step + 1, type(exc).__name__), repr(exc)[:200]))
+                    vs.append(('%s|shared-cache|parser-%d-cannot-be-built|%s' % (getattr(self, 'prefix', 'C17'), step + 1, type(exc).__name__), repr(exc)[:200]))
                     break
                 made.append((i, p))
                 for j, q in made:
@@ -386,7 +398,7 @@ class SharedCacheDirectory(object):
                     want = self.plain(j, texts)
                     bad = [k for k in range(len(texts)) if got[k] != want[k]]
                     if bad:
-                        vs.append(('C17|shared-cache|dialect-behaves-differently-over-a-used-cache-directory|after-%d-parsers' % (step + 1),
+                        vs.append(('%s|shared-cache|dialect-behaves-differently-over-a-used-cache-directory|after-%d-parsers' % (getattr(self, 'prefix', 'C17'), step + 1),
                                    'dialect %r (cache directory used by %r): text %r gives %r, without a cache directory %r' % (
                                        self.DIALECTS[j], [self.DIALECTS[x] for x, _ in made], texts[bad[0]][:200],
                                        got[bad[0]], want[bad[0]])))
